@@ -18,4 +18,5 @@ def run(ck):
                 "resumed 1..3 times (also during the resend phase), publishes while offline, final clean connect: nothing_lost, qos2_not_twice_new, "
                 "session_present, clean_discards; one QoS 2 delivery across two / three connection losses (before PUBREC, before PUBCOMP, also with a second delivery in "
                 "flight): the PUBREL is retransmitted, never the PUBLISH again (resend_pubrel); takeover of a live clean / persistent connection by a clean / "
-                "persistent one: session-present of the newcomer, then subscribe, offline QoS 1 publish, persistent reconnect (session_present, nothing_lost)")
+                "persistent one: session-present of the newcomer, then subscribe, offline QoS 1 publish, persistent reconnect (session_present, nothing_lost); ONE SUBSCRIBE with filters granted [1,0] and [2,1,0]: each delivery keeps its "
+                "filter's QoS and packet id (qos_kept) and is retransmitted with dup after a cut (nothing_lost)")
